@@ -34,6 +34,26 @@ type pathState struct {
 	// Loaded: what a load of a stored-to cell observed when it was executed on this path (a later store into the
 	// cell must not change what an earlier load saw: `cols = append(cols, c)` on a captured variable).
 	Loaded map[*ssa.UnOp]ssa.Value
+	// Optional (TabOpts.FieldCells / RunDefers): the last value stored into a field of a local struct (or of a struct
+	// reached through a stable access path) on this path; the deferred calls registered so far; instance counter for
+	// allocations returned by inlined helpers.
+	FCells map[string]ssa.Value
+	Defers []deferRec
+	InstN  int
+}
+
+type deferRec struct {
+	d    *ssa.Defer
+	fn   *ssa.Function
+	args []ssa.Value
+	val  ssa.Value // the resolved function value (MakeClosure) for closure defers
+}
+
+// instAlloc is an allocation made inside one particular inlined instance of a helper and handed out to the caller
+// (`pending := byteRange(…); read := byteRange(…)` are two objects although one Alloc instruction made both).
+type instAlloc struct {
+	*ssa.Alloc
+	inst int
 }
 
 type inlFrame struct {
@@ -77,6 +97,16 @@ func (ps *pathState) clone() *pathState {
 			n.Ret[k] = v
 		}
 	}
+	if len(ps.FCells) > 0 {
+		n.FCells = make(map[string]ssa.Value, len(ps.FCells))
+		for k, v := range ps.FCells {
+			n.FCells[k] = v
+		}
+	}
+	if len(ps.Defers) > 0 {
+		n.Defers = append([]deferRec(nil), ps.Defers...)
+	}
+	n.InstN = ps.InstN
 	if len(ps.Loaded) > 0 {
 		n.Loaded = make(map[*ssa.UnOp]ssa.Value, len(ps.Loaded))
 		for k, v := range ps.Loaded {
@@ -157,6 +187,13 @@ func (ps *pathState) Resolve(v ssa.Value) ssa.Value {
 			if seen, ok := ps.Loaded[x]; ok {
 				v = seen
 				continue
+			}
+			if fa, isFA := x.X.(*ssa.FieldAddr); isFA && ps.FCells != nil {
+				if val, ok := ps.FCells[ps.fcKey(fa)]; ok {
+					v = val
+					continue
+				}
+				return v
 			}
 			a, ok := x.X.(*ssa.Alloc)
 			if !ok {
@@ -335,4 +372,41 @@ func loopBody(h *ssa.BasicBlock) map[*ssa.BasicBlock]bool {
 		}
 	}
 	return body
+}
+
+// fcKey identifies the struct field fa points into on this path: by the allocation (or helper-instance allocation)
+// the base resolves to.  Bases that are not local allocations get no key ("").
+func (ps *pathState) fcKey(fa *ssa.FieldAddr) string { return ps.fcKeyOf(fa.X, fieldName(fa)) }
+
+func (ps *pathState) fcKeyOf(ptr ssa.Value, field string) string {
+	base := ps.Resolve(ptr)
+	switch b := base.(type) {
+	case *instAlloc:
+		return "I" + itoa(b.inst) + ":" + b.Alloc.Name() + "." + field
+	case *ssa.Alloc:
+		return "A:" + b.Parent().Name() + ":" + b.Name() + "." + field
+	case *ssa.UnOp:
+		// a pointer loaded from a field of a parameter (f.readLock): stable as long as that field is not reassigned
+		if b.Op.String() == "*" {
+			if fa2, ok := b.X.(*ssa.FieldAddr); ok {
+				if prm, ok := ps.Resolve(fa2.X).(*ssa.Parameter); ok {
+					return "P:" + prm.Name() + "." + fieldName(fa2) + "." + field
+				}
+			}
+		}
+	}
+	return ""
+}
+
+// FieldConst: the integer constant currently stored in field `field` of the struct ptr points to on this path.
+func (ps *pathState) FieldConst(ptr ssa.Value, field string) (int64, bool) {
+	k := ps.fcKeyOf(ptr, field)
+	if k == "" || ps.FCells == nil {
+		return 0, false
+	}
+	v, ok := ps.FCells[k]
+	if !ok {
+		return 0, false
+	}
+	return evalInt(v, ps)
 }
